@@ -167,7 +167,9 @@ inductive TagFeat
 deriving DecidableEq, Repr
 
 /-- tag n-grams of the token `[st, en)`: for `n` in `0..N` the n-grams of length `(en − st) + n + 1` that contain the token;
-`rel` = number of characters of the n-gram after the token's end -/
+`rel` = number of characters of the n-gram after the token's end.
+Documentation only: no listed property constrains what the tag learner is given (C12 takes the features from the hook trace), so this function
+feeds no output of the driver and no theorem; the model-mutation run (DESIGN.md 4.5) reports it as unconstrained, on purpose. -/
 def tagNgrams (N : Nat) (seq : List α) (st en : Nat) : List (List α × Nat) :=
   (List.range N).flatMap fun n =>
     let L := (en - st) + n + 1
